@@ -280,3 +280,8 @@ def run(repo: Repo, rep: Report, tier: str) -> None:
         else:
             rep.defer(str(exc))
     rep.extra["exhaustive"] = True
+    # ---- a timeout of 0 is not "no timeout" -----------------------------------------------------
+    from ..lints import zero_legal_truthiness
+    rep.rule("none-not-falsy", "timeouts are tested with `is None` (0 is a timeout, None is none)")
+    zero_legal_truthiness(repo, rep, "none-not-falsy", {"timeout", "_timeout", "acse_timeout", "dimse_timeout", "network_timeout", "connection_timeout"}, modules=("timer", "dul", "association", "acse", "dimse", "transport"))
+
